@@ -1,0 +1,28 @@
+//go:build verif
+// +build verif
+
+/*
+ * Copyright 2022 CloudWeGo Authors
+ *
+ * Licensed under the Apache License, Version 2.0 (the "License");
+ * you may not use this file except in compliance with the License.
+ * You may obtain a copy of the License at
+ *
+ *     http://www.apache.org/licenses/LICENSE-2.0
+ *
+ * Unless required by applicable law or agreed to in writing, software
+ * distributed under the License is distributed on an "AS IS" BASIS,
+ * WITHOUT WARRANTIES OR CONDITIONS OF ANY KIND, either express or implied.
+ * See the License for the specific language governing permissions and
+ * limitations under the License.
+ */
+
+package req
+
+import "github.com/cloudwego/hertz/pkg/protocol"
+
+// VerifParse exposes parse (first line + header block of a request held in buf)
+// to the verification harness. Only built with -tags verif.
+func VerifParse(h *protocol.RequestHeader, buf []byte) (int, error) {
+	return parse(h, buf)
+}
